@@ -137,7 +137,8 @@ JDiv(ev) ==
                 THEN (IF ev.r = qr[1] THEN "ok" ELSE "success-with-wrong-value")
            ELSE (IF ev.r = qr[2] THEN "ok" ELSE "success-with-wrong-value")      \* ra, abr: A holds the remainder
 
-JLShift(ev) == LET s == ShiftL(ev.a, ev.k)
+JLShift(ev) == IF ~IsZ(ev.a) /\ BitLen(ev.a) + ev.k > ev.w * ev.ca THEN "ok"       \* does not fit (decided without building the value)
+               ELSE LET s == ShiftL(ev.a, ev.k)
                IN IF ~Fits(s, ev.w, ev.ca) THEN "ok"                    \* no error channel: unspecified
                   ELSE IF ev.r # s THEN "success-with-wrong-value"
                   ELSE IF ev.nz # 1 THEN "denormalized-result" ELSE "ok"
@@ -145,6 +146,10 @@ JRShift(ev) == IF ev.r # ShiftR(ev.a, ev.k) THEN "success-with-wrong-value"
                ELSE IF ev.nz # 1 THEN "denormalized-result" ELSE "ok"
 JBitOp(ev, v) == Verdict(ev, (IF Fits(v, ev.w, ev.ca) THEN "ok" ELSE "must"), v)
 JBitSet(ev) ==
+   IF ev.k >= ev.w * ev.ca /\ Fits(ev.a, ev.w, ev.ca)       \* index beyond the capacity: decided without building 2^k
+   THEN (IF ev.k2 # 0 THEN (IF ev.rc = 0 THEN "success-but-result-cannot-fit" ELSE "ok")
+         ELSE Verdict(ev, "may", ev.a))
+   ELSE
    LET v == IF ev.k2 # 0 THEN BitOr(ev.a, Pow2(ev.k))
             ELSE IF Bit(ev.a, ev.k) = 1 THEN Sub(ev.a, Pow2(ev.k)) ELSE ev.a
        flag == IF ~Fits(v, ev.w, ev.ca) THEN "must" ELSE IF (ev.k \div ev.w) >= ev.ca THEN "may" ELSE "ok"
@@ -211,6 +216,42 @@ JModReduce(ev) ==
    IF Lt(ev.a, ev.m) THEN Verdict(ev, "ok", ev.a)
    ELSE LET m1 == Sub(ev.m, One)
         IN Verdict(ev, (IF DivMayFail(ev.a, m1, ev.w, ev.ca) THEN "may" ELSE "ok"), Add(XMod(ev.a, m1), One))
+
+(* ---------------------------------------------------------------- scalar-argument entry points *)
+\* bn_mod_mult_digit: (a * d) mod m, d = b one digit; the product is an intermediate of declared capacity ca
+JModMultDigit(ev) ==
+   IF IsZ(ev.m) THEN (IF ev.rc # 0 THEN "ok" ELSE "division-by-zero-accepted")
+   ELSE LET p == XMul(ev.a, ev.b)
+            flag == IF ~Fits(p, ev.w, ev.ca) THEN "may"
+                    ELSE IF ~(IsZ(ev.a) \/ IsZ(ev.b) \/ ev.b = One) /\ Dg(ev.a, ev.w) + 1 > ev.ca THEN "may"
+                    ELSE IF DivMayFail(p, ev.m, ev.w, ev.ca) THEN "may" ELSE "ok"
+        IN Verdict(ev, flag, XMod(p, ev.m))
+\* bn_mod_exp_digit: a^e mod m, a < m, e = b a machine word (size_t)
+JModExpDigit(ev) ==
+   LET flag == IF ev.ca < ev.cm \/ 2 * Dg(ev.a, ev.w) > ev.ca THEN "may"
+               ELSE IF IsZ(ev.b) \/ ev.b = One THEN "ok"
+               ELSE IF 2 * Dg(ev.m, ev.w) <= ev.ca THEN "ok" ELSE "may"
+   IN Verdict(ev, flag, XModExp(ev.a, ev.b, ev.m))
+\* bn_exp_digit: a^e, e = b one digit.  The power is only evaluated when it can fit the declared capacity
+\* (then e <= w * ca is a small native integer); the implementation squares its running base once more than
+\* needed and pre-checks digits * e against the capacity, so success is only demanded with that much room.
+RECURSIVE PowNat(_, _)
+PowNat(a, e) == IF e = 0 THEN One
+                ELSE IF e % 2 = 1 THEN XMul(a, PowNat(a, e - 1))
+                ELSE LET h == PowNat(a, e \div 2) IN XMul(h, h)
+JExpDigit(ev) ==
+   LET a == ev.a   e == ev.b   w == ev.w
+       trivial == IsZ(e) \/ e = One \/ IsZ(a) \/ a = One
+       canfit  == trivial \/ (BitLen(e) <= 11 /\ (BitLen(a) - 1) * ToInt(e) < w * ev.ca)
+       val     == IF IsZ(e) THEN One ELSE IF trivial THEN a ELSE PowNat(a, ToInt(e))
+       flag    == IF ~canfit THEN "must"
+                  ELSE IF ~Fits(val, w, ev.ca) THEN "must"
+                  ELSE IF IsZ(e) \/ e = One \/ IsZ(a) THEN "ok"
+                  ELSE IF BitLen(e) <= 10 /\ Dg(a, w) * (2^BitLen(e)) <= ev.ca THEN "ok" ELSE "may"
+   IN IF flag = "must" THEN (IF ev.rc = 0 THEN "success-but-result-cannot-fit" ELSE "ok")
+      ELSE Verdict(ev, flag, val)
+JAssign2Exp(ev) == IF ev.k >= ev.w * ev.ca THEN (IF ev.rc = 0 THEN "success-but-result-cannot-fit" ELSE "ok")
+                   ELSE Verdict(ev, "ok", Pow2(ev.k))
 
 (* ---------------------------------------------------------------- recoding *)
 \* width-k NAF: xs[1..arrsz] (arrsz = k2), n = reported length
@@ -297,6 +338,16 @@ Judge(ev) ==
      [] op = "mod_inv"    -> JModInv(ev)
      [] op = "mod_sqrt"   -> JModSqrt(ev)
      [] op = "mod_reduce" -> JModReduce(ev)
+     [] op = "mod_mult_digit" -> JModMultDigit(ev)
+     [] op = "mod_exp_digit"  -> JModExpDigit(ev)
+     [] op = "exp_digit"      -> JExpDigit(ev)
+     [] op = "assign_digit"   -> IF ev.rc # 0 THEN "error-not-allowed"                                     \* b is the digit
+                                 ELSE IF ev.r # ev.b THEN "success-with-wrong-value" ELSE "ok"
+     [] op = "assign_2exp"    -> JAssign2Exp(ev)
+     [] op = "digit_ctz"      -> IF IsZ(ev.a) THEN "ok" ELSE IntIs(ev, TrailingZeros(ev.a))                 \* a < 2^w
+     [] op = "digit_clz"      -> IF IsZ(ev.a) THEN "ok" ELSE IntIs(ev, w - BitLen(ev.a))
+     [] op = "digit_gcd"      -> IF ev.r = XGcd(ev.a, ev.b) THEN "ok" ELSE "success-with-wrong-value"       \* a, b < 2^w
+     [] op = "digit_gcd_bin"  -> IF ev.r = XGcd(ev.a, ev.b) THEN "ok" ELSE "success-with-wrong-value"
      [] op = "naf"        -> JNaf(ev)
      [] op = "jsf"        -> JJsf(ev)
      [] op = "imp_be_bin" -> JImport(ev, FromBytesBE(ev.xin), Len(ev.xin))
